@@ -311,24 +311,29 @@ func runSingle(t *testing.T, c Case) result {
 			// The property does not say whether a client closed beforehand refuses: an immediate error is accepted too.
 			outs = append(outs, outcome{Kind: "closed", At: 0})
 		}
+		v0 := len(w.viols)
 		o := w.checkTx(tr, "", wantArr, outs, w.arrivals())
+		v1 := len(w.viols)
 		res.Got, res.Want, res.Table = o, outs, tableSize(w.cl)
 		for _, a := range wantArr {
 			res.WantArr = append(res.WantArr, a.String())
 		}
 		res.GotArr = len(w.arrivals())
-		cause := "late-response-after-" + o.label()
-		switch {
-		case c.WErr == 1 && o.Kind == "error" && o.At == 0:
-			cause = "write-error-leaves-transaction"
-		case strings.HasPrefix(c.Noise, "nonstun"):
-			cause = "after-" + c.Noise + "-datagram"
+		causeWedged, causeExited := "late-response-after-"+o.label(), "after-"+o.label()
+		if c.WErr == 1 && o.Kind == "error" && o.At == 0 {
+			causeWedged = "write-error-leaves-transaction"
 		}
-		wedged := w.postCheck([]*txrun{tr}, cause)
+		if strings.HasPrefix(c.Noise, "nonstun") {
+			causeExited = "non-stun-datagram-from-" + strings.TrimPrefix(c.Noise, "nonstun-")
+		}
+		state := w.postCheck([]*txrun{tr}, causeWedged, causeExited)
+		if strings.HasPrefix(state, "exited") {
+			w.foldExited(v0, v1, causeExited)
+		}
 		res.class = fmt.Sprintf("ans=%s noise=%s werr=%s close=%s -> %s", ansKind(c.Mask), c.Noise, werrKind(c.WErr),
 			strings.TrimSuffix(c.Close, "-rev"), o.label())
-		if wedged {
-			res.class += "; then read loop dead"
+		if state != "" {
+			res.class += "; then read loop " + state
 		}
 
 		return w
